@@ -94,6 +94,28 @@ func (c *labelCtx) ctorSummary(lin *kit.LinEval, call *ssa.Call, callee *ssa.Fun
 		return branchShape{}, false
 	}
 	sh := branchShape{ph: kit.LinBad("parentHeight not initialised"), off: kit.LinConst(0), n: kit.LinConst(0), fresh: true}
+	// a value receiver returned by address (`func (b Branch) …{ …; return &b }`): the fields start
+	// as those of the caller's argument
+	kit.AllInstrs(callee, func(in ssa.Instruction) {
+		st, ok := in.(*ssa.Store)
+		if !ok || st.Addr != ssa.Value(alloc) {
+			return
+		}
+		prm, ok := st.Val.(*ssa.Parameter)
+		if !ok {
+			return
+		}
+		for i, q := range callee.Params {
+			if q != prm || i >= len(call.Call.Args) {
+				continue
+			}
+			if ld, ok := kit.Strip(call.Call.Args[i]).(*ssa.UnOp); ok && ld.Op == token.MUL {
+				sh.ph = lin.FieldAt(ld.X, c.phF, call)
+				sh.off = lin.FieldAt(ld.X, c.offF, call)
+				sh.n = lin.LenFieldAt(ld.X, c.headersF, call)
+			}
+		}
+	})
 	kit.AllInstrs(callee, func(in ssa.Instruction) {
 		st, ok := in.(*ssa.Store)
 		if !ok {
